@@ -46,6 +46,15 @@ def cases(draw, tier):
     d = D(draw)
     stratum = 'S2' if d.p(25) else 'S1'
     case = draw(gen.election_cases(tier=tier, rules=model.MEEK, equal_for_meek=True, stratum=stratum))
+    if case['rule'] != 'meek-prf' and d.p(6):
+        # omega finer than the arithmetic resolves (it truncates to 0): an iteration may then end only at surplus 0 or on a
+        # logged stable state - the regime in which the convergence exits are decided by single units in the last place
+        p = d.int(1, 8)
+        o = {'arithmetic': 'fixed', 'precision': p} if d.p(70) else {'arithmetic': 'guarded', 'precision': p, 'guard': 0}
+        o['omega'] = p + d.int(1, 3)
+        if 'defeat_batch' in case['options']:
+            o['defeat_batch'] = case['options']['defeat_batch']
+        case['options'] = o
     return case
 
 
